@@ -222,7 +222,9 @@ StreamErrors == StreamErrorsOf(StreamTexts, {NoApp, PlainApp})
 StreamErrorNorm(e) == [err |-> e.err, texts |-> e.texts, content |-> e.content]
 
 (* ------------------------------------------------------------------ helper scenarios *)
-Payloads == {"P_none", "P_elem", "P_text", "P_nested"}
+(* P_errdeep: a payload with DESCENDANTS named like the element the error helpers look for - an <error/> of   *)
+(* its own namespace and, next to it, a complete stanza error of the stanza namespace, both at depth 2        *)
+Payloads == {"P_none", "P_elem", "P_text", "P_nested", "P_errdeep"}
 HelpErrors == {[by |-> "J_zero", type |-> "cancel", cond |-> "item-not-found", texts |-> {}],
                \* an untagged text and two texts with different language tags
                [by |-> "J_fullx", type |-> "wait", cond |-> "undefined-condition",
